@@ -48,6 +48,10 @@ func (handler *HeadersHandler) Handle(ctx context.Context, m wire.Message) ([]wi
 		return nil, errors.New("Could not assert as *wire.Msginv")
 	}
 
+	// A block being processed has had its parent checked against the tip; a reorg must wait for it.
+	handler.blocks.LockChain()
+	defer handler.blocks.UnlockChain()
+
 	response := []wire.Message{}
 	modified := false
 	addedCount := 0
